@@ -44,7 +44,7 @@ from ..tlc import cfg
 
 NEEDS_EXT = True      # `import esutil` imports sfile -> recfile, which needs its extension (build is cached)
 
-PARTS = ("sort", "sortscale", "chunk", "pbar", "pbarhist", "pmap", "pmaphist")
+PARTS = ("sort", "sortalias", "sortscale", "chunk", "chunkworld", "pbar", "pbarhist", "pmap", "pmaphist")
 
 
 def _want(ctx, part):
@@ -93,6 +93,24 @@ def _model_table(ctx):
     t["sortscale.export"] = ("SortScale.tla", dict(
         what="export scale cases (shape x size x variant)",
         cfg_text=cfg(constants=dict(sc, DoExport=True), constraints=["Export"]), workers=1, coverage=False, timeout=3000))
+    AL = dict(ALIAS_LAW, Modes=ALIAS_MODES, Mech="pairwise")
+    t["sortalias.law"] = ("QuicksortAlias.tla", dict(
+        what="QuicksortAlias: any program of pair moves leaves the same through aliased views as on separate arrays (AliasLaw, no step bound)",
+        cfg_text=cfg(constants=AL, invariants=["AliasLaw", "RowsIntact", "TypeInv"]), workers=4, coverage=False, timeout=3000))
+    t["sortalias.self.tmpref"] = ("QuicksortAlias.tla", dict(
+        what="self-test: a pivot held by reference instead of a copy violates AliasLaw",
+        cfg_text=cfg(constants=dict(AL, Mech="tmpref"), invariants=["AliasLaw"]), workers=2, allow_violation=True, coverage=False))
+    t["sortalias.self.twophase"] = ("QuicksortAlias.tla", dict(
+        what="self-test: keys[:] = keys[order]; data[:] = data[order] violates AliasLaw when the keys are a column of the values",
+        cfg_text=cfg(constants=dict(AL, Mech="twophase", Modes={"field", "same"}), invariants=["AliasLaw"]), workers=2, allow_violation=True, coverage=False))
+    if ctx.tier != "quick":
+      t["sortalias.twophase_separate"] = ("QuicksortAlias.tla", dict(
+          what="the whole-array mechanism is right on separate arrays and sibling columns",
+          cfg_text=cfg(constants=dict(AL, Mech="twophase", Modes={"none", "sibling"}), invariants=["AliasLaw"]), workers=2, coverage=False))
+    t["sortalias.export"] = ("QuicksortAlias.tla", dict(
+        what="export (alias mode, array) cases",
+        cfg_text=cfg(constants=dict(ALIAS_BOUNDS[ctx.tier], Modes=ALIAS_MODES, Mech="pairwise", DoExport=True), next_="NextNone", constraints=["Export"]),
+        workers=1, coverage=False, timeout=3000))
     CB = dict(CHUNK_BOUNDS[ctx.tier], SizesFirst=True, DoExport=False)
     t["chunk.mc"] = ("Isplit.tla", dict(
         what="Isplit/SplitArray: mechanism refines property, reference accepted and unique (exhaustive)",
@@ -106,6 +124,25 @@ def _model_table(ctx):
     t["chunk.export"] = ("Isplit.tla", dict(
         what="export (num, nchunks) and (nper, array) cases",
         cfg_text=cfg(constants=dict(CB, DoExport=True), next_="NextExport", constraints=["Export"]), workers=1, coverage=False, timeout=3000))
+    WT = WORLD_TIERS[ctx.tier]
+    wsmall = dict(WORLD_CONSTS, Chunks={3}, Npers={2}, MaxOps=4, MaxSlots=3, DoExport=False)
+    t["chunkworld.mc"] = ("IsplitWorld.tla", dict(
+        what="IsplitWorld: every call of every session returns the fresh-world outcome; held results change only by their holder's hand",
+        cfg_text=cfg(init="WInit", next_="WNext", constants=dict(wsmall, Mech="fresh"), invariants=["WorldInv"]), workers=4, coverage=False, timeout=3000))
+    if ctx.tier != "quick":
+        t["chunkworld.memo_copy"] = ("IsplitWorld.tla", dict(
+            what="IsplitWorld: a memo that hands out copies is faithful",
+            cfg_text=cfg(init="WInit", next_="WNext", constants=dict(wsmall, Mech="memo_copy"), invariants=["WorldInv"]), workers=2, coverage=False, timeout=3000))
+    t["chunkworld.self"] = ("IsplitWorld.tla", dict(
+        what="self-test: a memo that hands out its own storage / keyed by the identity of the array violates WorldInv",
+        cfg_text=cfg(init="WInit", next_="WNext", constants=dict(wsmall, Mech="memo_shared"), invariants=["WorldInv"]),
+        workers=2, allow_violation=True, coverage=False))
+    t["chunkworld.sim"] = ("IsplitWorld.tla", dict(
+        what="simulate sessions of isplit / splitarray calls (icall / scribble / scall / mutarr)",
+        cfg_text=cfg(init="WInit", next_="WNext", constants=dict(WORLD_CONSTS, Mech="fresh", MaxOps=WT["depth"], MaxSlots=WT["slots"], DoExport=True),
+                     constraints=["Export"]),
+        workers=1, coverage=False, timeout=3000, simulate="num=%d" % WT["num"],
+        extra=["-depth", str(WT["depth"] + 2), "-seed", str(4000 + ctx.seed)]))
     PB = dict(PBAR_CONSTS, **PBAR_BOUNDS[ctx.tier])
     t["pbar.mc"] = ("ProgressIter.tla", dict(
         what="ProgressIter: prefix, laziness, no loss, completion (every case, most general wrapper)",
@@ -177,7 +214,7 @@ def _prefetch(ctx):
         except Exception as e:  # noqa  (re-raised where the part asks for the run)
             return key, None, e
     # the long runs first
-    order = sorted(table.items(), key=lambda kv: (not kv[0].endswith((".mc", ".law", ".sim")), kv[0]))
+    order = sorted(table.items(), key=lambda kv: (not kv[0].endswith((".mc", ".law", ".sim", ".memo_copy")), kv[0]))
     with ThreadPoolExecutor(lanes) as ex:
         for key, r, e in ex.map(one, order):
             ctx._c20_models[key] = (r, e)
@@ -641,6 +678,172 @@ def part_sortscale(ctx):
 
 
 # =====================================================================================
+# 1c. aliasing between the keys and the values of one call (QuicksortAlias.tla)
+# =====================================================================================
+ALIAS_BOUNDS = {"quick": dict(MaxLen=4, Vals={0, 1, 2, 3}), "thorough": dict(MaxLen=5, Vals={0, 1, 2, 3})}
+ALIAS_MODES = {"none", "sibling", "same", "field"}
+ALIAS_LAW = dict(MaxLen=3, Vals={0, 1, 2}, DoExport=False)
+ALIAS_KTYPES = {"i8": ("int", "i8"), "f8": ("float", "f8"), "U": ("str", "U5"), ">i4": ("int", ">i4"), "f4": ("float", "f4")}
+ALIAS_KTYPE_LIST = ["i8", "f8", "U", ">i4", "f4"]
+ALIAS_REPS = {"none": ["np"],
+              "sibling": ["rec-cols", "2d-cols"],
+              "same": ["ndarray", "twoviews", "list", "memmap"],
+              "field": ["rec-first", "rec-mid", "2d-col0", "recarray", "2d-col1"]}
+
+
+def _alias_build(alias, rep, ktype, keys_abs):
+    """the two arguments of one aliased call and a reader of what they hold afterwards (abstract keys, abstract values:
+    the position 1..n the value came from, -1 for a row that is no row of the input; alias 'same': the key itself)"""
+    if rep.startswith("2d") and ktype == "U":
+        ktype = "i8"
+    if rep == "memmap" and ktype == "U":
+        ktype = ">i4"
+    m, dt = ALIAS_KTYPES[ktype]
+    g = _KEYMAPS[m]
+    conc = [g(v) for v in keys_abs]
+    back = {g(v): v for v in set(keys_abs)}
+    n = len(conc)
+    pos = list(range(1, n + 1))
+
+    def kb(cont):
+        return _keys_back("", cont, back)
+    if alias == "none":
+        k, v = np.array(conc, dtype=dt), np.array(pos, dtype="i8")
+        return k, v, lambda: (kb(k), [int(x) for x in v]), ktype
+    if alias == "same":
+        if rep == "list":
+            a = list(conc)
+            return a, a, lambda: (kb(a), kb(a)), ktype
+        a = _memmap(conc, dt) if rep == "memmap" else np.array(conc, dtype=dt)
+        if rep == "twoviews":
+            return a[:], a[:], lambda: (kb(a), kb(a)), ktype
+        return a, a, lambda: (kb(a), kb(a)), ktype
+    if rep.startswith("2d"):
+        kc, pc = (1, 0) if rep == "2d-col1" else (0, 1)
+        arr = np.zeros((n, 3), dtype="f8" if m == "float" else "i8")
+        if n:
+            arr[:, kc], arr[:, pc], arr[:, 2] = conc, pos, [p + 1000 for p in pos]
+
+        def read2():
+            return kb(arr[:, kc]), [int(r[pc]) if (r[2] == r[pc] + 1000 and 1 <= r[pc] <= n) else -1 for r in arr]
+        if alias == "field":
+            return arr[:, kc], arr, read2, ktype
+        return arr[:, kc], arr[:, pc], lambda: (kb(arr[:, kc]), [int(x) if x in pos else -1 for x in arr[:, pc]]
+                                                 if all(arr[i, 2] == i + 1001 for i in range(n)) else [-1] * n), ktype
+    if rep == "rec-mid":
+        rec = np.zeros(n, dtype=[("p", "i4"), ("id", dt), ("q", "f8")])
+        rec["id"], rec["p"], rec["q"] = conc, pos, [p * 0.5 for p in pos]
+        return rec["id"], rec, lambda: (kb(rec["id"]), [int(r["p"]) if r["q"] == r["p"] * 0.5 else -1 for r in rec]), ktype
+    rec = np.zeros(n, dtype=[("id", dt), ("p", "i8"), ("s", "S4")])
+    rec["id"], rec["p"], rec["s"] = conc, pos, [b"%04d" % p for p in pos]
+    if alias == "sibling":
+        return rec["id"], rec["p"], lambda: (kb(rec["id"]), [int(x) for x in rec["p"]] if all(rec["s"][i] == b"%04d" % (i + 1) for i in range(n))
+                                             else [-1] * n), ktype
+
+    def readr():
+        return kb(rec["id"]), [int(r["p"]) if r["s"] == b"%04d" % int(r["p"]) else -1 for r in rec]
+    if rep == "recarray":
+        ra = rec.view(np.recarray)
+        return ra.id, ra, readr, ktype
+    return rec["id"], rec, readr, ktype
+
+
+def alias_obs(alias, rep, ktype, keys_abs):
+    from esutil import algorithm as al
+    k, v, read, ktype = _alias_build(alias, rep, ktype, keys_abs)
+    try:
+        al.quicksort_keyvalue(k, v)
+        ko, vo = read()
+        o = {"err": "none", "keys": ko, "vals": [int(x) for x in vo]}
+    except Exception as e:  # noqa
+        o = {"err": _err(e), "keys": [], "vals": []}
+    o["alias"], o["rep"], o["ktype"] = alias, rep, ktype
+    return o
+
+
+def _alias_case(alias, keys_abs):
+    """the abstract case the views of an aliased call stand for (QuicksortAlias!AliasLaw): same = every pair is (x, x)"""
+    keys_abs = list(keys_abs)
+    return {"variant": "kv", "keys": keys_abs, "vals": keys_abs if alias == "same" else list(range(1, len(keys_abs) + 1))}
+
+
+def _alias_repclass(o):
+    r = o["rep"]
+    return ("list" if r == "list" else "memmap" if r == "memmap" else "recarray" if r == "recarray" else
+            "ndarray_2d" if r.startswith("2d") else "ndarray_structured" if r.startswith("rec") else "ndarray")
+
+
+def _judge_alias(ctx, recs, what, selftest=()):
+    rej = tracecheck.validate(ctx, "QuicksortTrace.tla",
+                              [{"id": r["id"], "c": r["c"], "obs": [{"err": o["err"], "keys": o["keys"], "vals": o["vals"]} for o in r["obs"]]}
+                               for r in recs], what=what)
+    ctx.traces -= len([i for i in selftest if i not in rej])
+    byid = {r["id"]: r for r in recs}
+    for rid, failing in rej.items():
+        if rid in selftest:
+            continue
+        r = byid[rid]
+        for k, clause in failing:
+            o = r["obs"][k - 1]
+            ctx.violation("quicksort_keyvalue|%s|alias=%s,%s" % (clause, o["alias"], _alias_repclass(o)),
+                          "in-place key-value sort with the keys sharing memory with the values (%s) not allowed by Algo!SortFailing "
+                          "seen through the views of QuicksortAlias.tla: clause %s" % (o["alias"], clause),
+                          {"kind": "sortalias", "keys": r["c"]["keys"], "alias": o["alias"], "rep": o["rep"], "ktype": o["ktype"], "observed": o})
+    return rej
+
+
+def part_sortalias(ctx):
+    B = ALIAS_BOUNDS[ctx.tier]
+    r1 = _m(ctx, "sortalias.law")
+    if r1.distinct < 5000:
+        raise MachineryError("QuicksortAlias law run visited only %d states" % r1.distinct)
+    for key in ("sortalias.self.tmpref", "sortalias.self.twophase"):
+        if "AliasLaw" not in _m(ctx, key).violated:
+            raise MachineryError("self-test failed: %s must violate AliasLaw" % key)
+    if not ctx.quick:
+        _m(ctx, "sortalias.twophase_separate")   # the whole-array mechanism is right on separate arrays (must hold)
+    cases = _m(ctx, "sortalias.export").records.get("CASE", [])
+    nexp = len(ALIAS_MODES) * sum(len(B["Vals"]) ** k for k in range(B["MaxLen"] + 1))
+    if len(cases) != nexp:
+        raise MachineryError("QuicksortAlias export: %d cases, expected %d" % (len(cases), nexp))
+    recs = []
+    for i, cse in enumerate(sorted(cases, key=lambda c: (c["keys"], c["alias"]))):
+        reps = ALIAS_REPS[cse["alias"]]
+        obs = [alias_obs(cse["alias"], reps[(i // 4 + t) % len(reps)], ALIAS_KTYPE_LIST[(i // 4 + 2 * t) % len(ALIAS_KTYPE_LIST)], cse["keys"])
+               for t in range(min(2, len(reps)))]
+        recs.append({"id": i + 1, "c": _alias_case(cse["alias"], cse["keys"]), "obs": obs})
+        ctx.count({"sortalias": [cse["alias"], cse["keys"]]})
+    # seeded larger arrays through every aliased form
+    nrand = 40 if ctx.quick else 400
+    rng = random.Random(ctx.seed * 15485863 + 5)
+    nid = len(recs)
+    for j, (shape, a) in enumerate(_seeded_arrays(rng, nrand, 120)):
+        for alias in ("same", "field", "sibling"):
+            nid += 1
+            reps = ALIAS_REPS[alias]
+            recs.append({"id": nid, "c": _alias_case(alias, a),
+                         "obs": [alias_obs(alias, reps[j % len(reps)], ALIAS_KTYPE_LIST[(j // 2) % len(ALIAS_KTYPE_LIST)], a)]})
+            ctx.count({"sortalias": [alias, a], "shape": shape})
+    probe = next(r for r in recs if r["obs"][0]["alias"] == "field" and len(set(r["c"]["keys"])) >= 3 and r["c"]["keys"] != sorted(r["c"]["keys"]))
+    ctx.sample({"sort_alias_case": probe["c"], "observed": probe["obs"][0]})
+    # binding self-test: the key column permuted twice (what the whole-array mechanism leaves) rides along
+    S = 10 ** 6 + 1
+    good = probe["obs"][0]
+    n = len(good["keys"])
+    bad = dict(good, keys=[good["keys"][(i + 1) % n] for i in range(n)])
+    badrec = {"id": S, "c": probe["c"], "obs": [bad]}
+    rej = _judge_alias(ctx, recs + [badrec], "judge aliased key-value sorts (QuicksortTrace through the views of QuicksortAlias; a corrupted "
+                       "copy - the key column permuted once more - rides along as binding self-test)", selftest=(S,))
+    if "pairs_broken" not in [f[1] for f in rej.get(S, [])] and not ctx.violations:
+        raise MachineryError("binding self-test failed (sort aliasing): %s" % rej.get(S))
+    ctx.note(sortalias=dict(bounds={"MaxLen": B["MaxLen"], "Vals": sorted(B["Vals"])}, modes=sorted(ALIAS_MODES), exported_cases=len(cases),
+                            representations=ALIAS_REPS, key_types=ALIAS_KTYPE_LIST, seeded_arrays=nrand, law_states=r1.distinct))
+    return ("every array of length 0..%d over %d keys x alias mode (separate / sibling columns / the same array twice / the keys a column "
+            "of the values; exported from QuicksortAlias.tla) through %d representations, plus %d seeded arrays (length 0..120) in "
+            "every aliased form" % (B["MaxLen"], len(B["Vals"]), sum(len(v) for v in ALIAS_REPS.values()), nrand))
+
+
+# =====================================================================================
 # 2. isplit / splitarray
 # =====================================================================================
 CHUNK_BOUNDS = {"quick": dict(MaxNum=200, MaxChunks=60, MaxLen=24, MaxNper=26),
@@ -777,6 +980,215 @@ def part_chunk(ctx):
     return ("every (num, nchunks) in 0..%d x 1..%d and every (nper, array) with length 0..%d, nper 1..%d (exported from Isplit.tla), "
             "plus %d seeded larger cases (num up to 1e8, nchunks up to 500, arrays up to length 300)"
             % (B["MaxNum"], B["MaxChunks"], B["MaxLen"], B["MaxNper"], nrand))
+
+
+# =====================================================================================
+# 2b. sessions of isplit / splitarray calls in one process (IsplitWorld.tla): results scribbled over, arguments mutated
+# =====================================================================================
+WORLD_CONSTS = dict(Nums={7, 10}, Chunks={3, 4}, ArrLenA=5, ArrLenB=7, Npers={2, 3})
+WORLD_TIERS = {"quick": dict(num=250, keep=60, depth=14, slots=6), "thorough": dict(num=2500, keep=600, depth=18, slots=8)}
+WORLD_ARR_KINDS = ["np-i8", "list", "np-roview", "np-f8", "np-strided"]
+
+
+def _world_array(kind, n):
+    """(object passed to splitarray, object the caller mutates, back-map of a chunk)"""
+    a_abs = list(range(1, n + 1))
+    if kind == "np-roview":
+        base = SPLIT_KINDS["np-i8"][0](a_abs)
+        view = base[:]
+        view.flags.writeable = False
+        return view, base, SPLIT_KINDS["np-i8"][1]
+    arr = SPLIT_KINDS[kind][0](a_abs)
+    return arr, arr, SPLIT_KINDS[kind][1]
+
+
+def world_run(arg):
+    """one session in THIS process (the caller forks a fresh child per session): returns the operations with what the
+    real functions returned (`res`), what every result handed out so far holds now (`held`) and what the caller's arrays
+    hold (`after`)"""
+    ops, kind = arg["ops"], arg["kind"]
+    from esutil import algorithm as al, numpy_util as nu
+    arrs = [_world_array(kind, n) for n in arg["arrlens"]]
+    slots, out = [], []
+
+    def table(s):
+        if s is None:
+            return {"starts": [], "ends": []}
+        return {"starts": [int(x) for x in s["start"]], "ends": [int(x) for x in s["end"]]}
+    for o in ops:
+        o = dict(o)
+        if o["op"] == "icall":
+            a, b = (o["num"], o["nchunks"]) if o["fl"] == "int" else (np.int64(o["num"]), np.int32(o["nchunks"]))
+            try:
+                s = al.isplit(a, b)
+                o["res"] = dict(table(s), err="none")
+                slots.append(s)
+            except Exception as e:  # noqa
+                o["res"] = {"err": _err(e), "starts": [], "ends": []}
+                slots.append(None)
+        elif o["op"] == "scribble":
+            s = slots[o["slot"] - 1]
+            before = table(s)
+            try:
+                if s is None:
+                    raise ValueError("no result")
+                if o["how"] == "shift":
+                    s["start"] += 1000
+                    s["end"] += 1000
+                else:
+                    s["end"][:] = 0
+                o["done"] = True
+            except Exception:  # noqa  (a result that does not let itself be overwritten: a stutter step, if nothing changed)
+                o["done"] = table(s) != before
+        elif o["op"] == "scall":
+            passed, _, bk = arrs[o["arr"] - 1]
+            try:
+                chunks = nu.splitarray(o["nper"], passed)
+                if not isinstance(chunks, (list, tuple)):
+                    raise TypeError("splitarray did not return a list")
+                o["res"] = {"err": "none", "chunks": [bk(ch) for ch in chunks]}
+            except Exception as e:  # noqa
+                o["res"] = {"err": _err(e), "chunks": []}
+        elif o["op"] == "mutarr":
+            _, base, bk = arrs[o["arr"] - 1]
+            if isinstance(base, list):
+                if o["how"] == "reverse":
+                    base.reverse()
+                else:
+                    base.append(base.pop(0))
+            else:
+                base[:] = base[::-1].copy() if o["how"] == "reverse" else np.roll(base, -1)
+            o["after"] = bk(base)
+        o["held"] = [table(s) for s in slots]
+        out.append(o)
+    return out
+
+
+def _world_score(ops):
+    """how often a session does what it is there for: an isplit call repeated with equal arguments after a result of that
+    call was overwritten, a splitarray call repeated on an array changed in between"""
+    st = collections.Counter()
+    owner, dirty, sdirty = [], set(), {}
+    for o in ops:
+        if o["op"] == "icall":
+            key = (o["num"], o["nchunks"])
+            if key in dirty:
+                st["isplit_repeated_after_scribble"] += 1
+            if key in owner:
+                st["isplit_repeated"] += 1
+            owner.append(key)
+        elif o["op"] == "scribble":
+            dirty.add(owner[o["slot"] - 1])
+        elif o["op"] == "scall":
+            key = (o["nper"], o["arr"])
+            if sdirty.get(key):
+                st["splitarray_repeated_after_mutation"] += 1
+            sdirty[key] = False
+        elif o["op"] == "mutarr":
+            for key in sdirty:
+                if key[1] == o["arr"]:
+                    sdirty[key] = True
+    return st
+
+
+def _world_rich(ops):
+    st = _world_score(ops)
+    return min(st["isplit_repeated_after_scribble"], 3) + 3 * min(st["splitarray_repeated_after_mutation"], 2)
+
+
+def _world_sig(o, clause):
+    if o["op"] == "icall":
+        return "isplit|%s|session" % clause
+    if o["op"] == "scall":
+        return "splitarray|%s|session" % clause
+    return "isplit|%s|session,after_%s" % (clause, o["op"])
+
+
+def world_judge(ctx, recs, what, selftest=()):
+    rej = tracecheck.validate(ctx, "IsplitWorldTrace.tla", [{"id": r["id"], "arrs0": r["arrs0"], "ops": r["ops"]} for r in recs], what=what,
+                              constants=dict(WORLD_CONSTS, MaxOps=1, MaxSlots=1, Mech="fresh", DoExport=False))
+    ctx.traces -= len([i for i in selftest if i not in rej])
+    byid = {r["id"]: r for r in recs}
+    for rid, failing in rej.items():
+        if rid in selftest:
+            continue
+        r = byid[rid]
+        for k, clause in failing:
+            o = r["ops"][k - 1]
+            if clause == "harness_state_mismatch":
+                raise MachineryError("session replay: the harness's array differs from IsplitWorld!Mut after operation %d of %s" % (k, r["ops"]))
+            ctx.violation(_world_sig(o, clause),
+                          "operation %d of a session of isplit / splitarray calls in one process: %s (IsplitWorldTrace: every call returns "
+                          "the fresh-world outcome, results handed out change only by their holder's hand)" % (k, clause),
+                          {"kind": "chunkworld", "arrkind": r["kind"], "arrlens": [len(a) for a in r["arrs0"]],
+                           "ops": [{kk: v for kk, v in x.items() if kk not in ("res", "held", "after", "done")} for x in r["ops"][:k]],
+                           "failing_op": k, "observed": {kk: o[kk] for kk in ("res", "held") if kk in o}})
+    return rej
+
+
+def part_chunkworld(ctx):
+    T = WORLD_TIERS[ctx.tier]
+    r0 = _m(ctx, "chunkworld.mc")
+    if r0.distinct < 1000:
+        raise MachineryError("IsplitWorld model run visited only %d states" % r0.distinct)
+    if not ctx.quick:
+        _m(ctx, "chunkworld.memo_copy")
+    if "WorldInv" not in _m(ctx, "chunkworld.self").violated:
+        raise MachineryError("self-test failed: IsplitWorld WorldInv not violated by the memo that hands out its own storage")
+    rs = _m(ctx, "chunkworld.sim")
+    byprefix = {}
+    for h in rs.records.get("SESS", []):                            # the constraint prints every candidate last operation
+        byprefix.setdefault(repr(h["ops"][:-1]), h)
+    sess = sorted(byprefix.values(), key=lambda h: (-_world_rich(h["ops"]), repr(h["ops"])))[:T["keep"]]
+    if len(sess) < T["keep"] or any(len(h["ops"]) != T["depth"] for h in sess):
+        raise MachineryError("IsplitWorld simulation produced %d sessions of depth %s" % (len(sess), sorted({len(h["ops"]) for h in sess})))
+    st = collections.Counter()
+    for h in sess:
+        st.update(_world_score(h["ops"]))
+    if st["isplit_repeated_after_scribble"] < T["keep"] or st["splitarray_repeated_after_mutation"] < T["keep"] // 2:
+        raise MachineryError("simulated isplit / splitarray sessions are too thin (vacuity guard): %s" % dict(st))
+    arrlens = [WORLD_CONSTS["ArrLenA"], WORLD_CONSTS["ArrLenB"]]
+    args = [{"ops": h["ops"], "kind": WORLD_ARR_KINDS[i % len(WORLD_ARR_KINDS)], "arrlens": arrlens} for i, h in enumerate(sess)]
+    arrs0 = [list(range(1, n + 1)) for n in arrlens]
+    recs = [{"id": i, "ops": ops, "kind": a["kind"], "arrs0": arrs0} for i, (a, ops) in enumerate(zip(args, _isolated_many(world_run, args, 4)), 1)]
+    for h in sess:
+        ctx.count({"chunkworld": h["ops"]})
+    ctx.sample({"chunk_session": recs[0]["ops"][:6]})
+    # binding self-test: a session in which a repeated call returns the table an earlier holder shifted / in which an
+    # earlier result changes under its holder's feet
+    probe = None
+    for r in recs:
+        for k, o in enumerate(r["ops"]):
+            if o["op"] == "icall" and o["res"]["err"] == "none" and k + 1 < len(r["ops"]) and len(o["held"]) >= 2:
+                probe = (r, k)
+                break
+        if probe:
+            break
+    if not probe:
+        raise MachineryError("no session suitable for the binding self-test (isplit sessions)")
+    r, k = probe
+    bad1 = [dict(o) for o in r["ops"]]
+    res = r["ops"][k]["res"]
+    shifted = dict(res, starts=[x + 1000 for x in res["starts"]], ends=[x + 1000 for x in res["ends"]])
+    bad1[k] = dict(bad1[k], res=shifted)
+    bad2 = [dict(o) for o in r["ops"]]
+    h2 = [dict(t) for t in bad2[k + 1]["held"]]
+    h2[0] = dict(h2[0], ends=[0] * len(h2[0]["ends"]) if any(h2[0]["ends"]) else [1] * len(h2[0]["ends"]))
+    bad2[k + 1] = dict(bad2[k + 1], held=h2)
+    S1, S2 = 10 ** 6 + 1, 10 ** 6 + 2
+    rej = world_judge(ctx, recs + [dict(r, id=S1, ops=bad1), dict(r, id=S2, ops=bad2)],
+                      "judge sessions of isplit / splitarray calls (IsplitWorldTrace; two corrupted copies ride along as binding self-test)",
+                      selftest=(S1, S2))
+    if [k + 1, "first_start_ne_0"] not in rej.get(S1, []) or [k + 2, "earlier_result_changed"] not in rej.get(S2, []):
+        if not ctx.violations:
+            raise MachineryError("binding self-test failed (isplit sessions): %s" % {i: rej.get(i) for i in (S1, S2)})
+    ctx.note(chunkworld=dict(consts={k: (sorted(v) if isinstance(v, set) else v) for k, v in WORLD_CONSTS.items()}, sessions=len(sess),
+                             operations_per_session=T["depth"], situations=dict(st), array_kinds=WORLD_ARR_KINDS, mc_states=r0.distinct))
+    return ("%d sessions of %d operations each (tlc -simulate on IsplitWorld.tla, the ones richest in collisions kept: isplit / splitarray "
+            "calls with results overwritten in place by their holder and the caller's arrays changed in place - through the writable base "
+            "of a read-only view too - between equal-argument calls), each executed in one fresh process; %d repeated isplit calls after a "
+            "scribble, %d repeated splitarray calls after a mutation"
+            % (len(sess), T["depth"], st["isplit_repeated_after_scribble"], st["splitarray_repeated_after_mutation"]))
 
 
 # =====================================================================================
@@ -1732,10 +2144,14 @@ def run(ctx):
     _prefetch(ctx)
     if _want(ctx, "sort"):
         rules.append("sort: " + part_sort(ctx))
+    if _want(ctx, "sortalias"):
+        rules.append("sort with aliased arguments: " + part_sortalias(ctx))
     if _want(ctx, "sortscale"):
         rules.append("sort at scale: " + part_sortscale(ctx))
     if _want(ctx, "chunk"):
         rules.append("chunk: " + part_chunk(ctx))
+    if _want(ctx, "chunkworld"):
+        rules.append("chunk sessions: " + part_chunkworld(ctx))
     if _want(ctx, "pbar"):
         rules.append("pbar: " + part_pbar(ctx))
     if _want(ctx, "pbarhist"):
@@ -1775,11 +2191,20 @@ def replay(ctx, case):
         o = sort_obs(c["variant"], case["kkind"], case["vkind"], c["keys"], c["vals"])
         print("replay observed:", o)
         _judge_sort(ctx, [{"id": 1, "c": c, "obs": [o]}], "replay")
+    elif kind == "sortalias":
+        o = alias_obs(case["alias"], case["rep"], case["ktype"], case["keys"])
+        print("replay observed:", o)
+        _judge_alias(ctx, [{"id": 1, "c": _alias_case(case["alias"], case["keys"]), "obs": [o]}], "replay")
     elif kind == "chunk":
         c = case["c"]
         o = isplit_obs(c["num"], c["nchunks"], case["flavour"]) if c["fn"] == "isplit" else split_obs(c["nper"], c["a"], case["flavour"])
         print("replay observed:", o)
         _judge_chunks(ctx, [{"id": 1, "c": c, "obs": [o]}], "replay")
+    elif kind == "chunkworld":
+        arg = {"ops": case["ops"], "kind": case["arrkind"], "arrlens": case["arrlens"]}
+        ops = _isolated(world_run, arg)              # the whole session, in one fresh process
+        print("replay observed:", ops[case["failing_op"] - 1])
+        world_judge(ctx, [{"id": 1, "ops": ops, "kind": case["arrkind"], "arrs0": [list(range(1, n + 1)) for n in case["arrlens"]]}], "replay")
     elif kind == "pbar":
         ev, errcls = pbar_run(case["c"], case["entry"])
         print("replay observed:", ev, errcls)
